@@ -1,0 +1,59 @@
+//! Verification hooks, compiled only with the cargo feature `verif-hooks`.
+//!
+//! Everything here is inert unless a harness installs a callback: production code calls
+//! `crash_point`, `sched_point` and `wal_rotation_override` at instrumented steps and these
+//! return immediately when nothing is installed. Callbacks are thread-local so that several
+//! single-threaded explorations can run side by side in one process.
+
+use std::cell::RefCell;
+use std::future::Future;
+use std::path::Path;
+use std::pin::Pin;
+use std::rc::Rc;
+
+/// Callback invoked at an instrumented persistence step: `(label, directory or file path)`.
+pub type CrashPointFn = dyn Fn(&str, &Path);
+/// Callback producing the future a task awaits at a scheduling point.
+pub type SchedPointFn = dyn Fn(&str) -> Pin<Box<dyn Future<Output = ()>>>;
+
+thread_local! {
+    static CRASH_POINT: RefCell<Option<Rc<CrashPointFn>>> = const { RefCell::new(None) };
+    static SCHED_POINT: RefCell<Option<Rc<SchedPointFn>>> = const { RefCell::new(None) };
+    static WAL_ROTATION_ENTRIES: RefCell<Option<u64>> = const { RefCell::new(None) };
+}
+
+/// Install (or clear) the crash-point callback of the current thread.
+pub fn set_crash_point(cb: Option<Rc<CrashPointFn>>) {
+    CRASH_POINT.with(|c| *c.borrow_mut() = cb);
+}
+
+/// Called by instrumented code after a persistence step has been handed to the OS.
+pub fn crash_point(label: &str, path: &Path) {
+    let cb = CRASH_POINT.with(|c| c.borrow().clone());
+    if let Some(cb) = cb {
+        cb(label, path);
+    }
+}
+
+/// Install (or clear) the scheduling-point callback of the current thread.
+pub fn set_sched_point(cb: Option<Rc<SchedPointFn>>) {
+    SCHED_POINT.with(|c| *c.borrow_mut() = cb);
+}
+
+/// Called by instrumented code between two critical sections; a no-op unless a scheduler is installed.
+pub async fn sched_point(label: &str) {
+    let cb = SCHED_POINT.with(|c| c.borrow().clone());
+    if let Some(cb) = cb {
+        cb(label).await;
+    }
+}
+
+/// Override the number of log entries after which the write-ahead log rotates (current thread).
+pub fn set_wal_rotation_entries(n: Option<u64>) {
+    WAL_ROTATION_ENTRIES.with(|c| *c.borrow_mut() = n);
+}
+
+/// Rotation threshold override, if any.
+pub fn wal_rotation_override() -> Option<u64> {
+    WAL_ROTATION_ENTRIES.with(|c| *c.borrow())
+}
